@@ -7,6 +7,7 @@ package c06
 import (
 	"bytes"
 	"fmt"
+	"net"
 	"testing"
 	"time"
 
@@ -271,3 +272,116 @@ func TestFailover(t *testing.T) {
 	}
 	specFailover.Check(t)
 }
+
+// ---- the caller drains the queue itself (SendAndClear) -------------------------------------------------------
+
+type DrainCase struct {
+	Sizes  []int `json:"sizes"`  // filler bytes of the packs queued one after the other
+	Shrink int   `json:"shrink"` // > 0: before draining, a configuration reload sets oneway_queue_size to this (below the backlog)
+	Rounds int   `json:"rounds"` // the backlog is queued and drained this many times on the same connection
+}
+
+func runDrain(c DrainCase) *pbt.Result {
+	mk := newPeer
+	if c.Shrink > 0 {
+		mk = newPeer6600
+	}
+	pr, err := mk()
+	if err != nil {
+		if c.Shrink > 0 {
+			return &pbt.Result{Classes: []string{"harness-could-not-listen-on-port-6600"}}
+		}
+		return pbt.Fail("harness cannot listen: %v", err)
+	}
+	defer pr.shutdown()
+	cl := oneway.NewForVerif(oneway.WithServers([]string{pr.addr}), oneway.WithLicense(clientLicense), oneway.WithPcode(77), oneway.WithUseQueue(), oneway.WithQueueSize(1000))
+	cl.Timeout = 5 * time.Second
+	defer func() { cl.Destroy(); cl.Close() }()
+	var frames [][]byte
+	var id int64
+	total := 0
+	if c.Shrink > 0 {
+		c.Rounds = 1 // after the reload the smaller queue rightly refuses a second backlog of the same size
+	}
+	for round := 0; round < c.Rounds; round++ {
+		for i, sz := range c.Sizes {
+			id++
+			p := mkPack(id, sz, uint64(i*31+round))
+			if e := cl.SendFlush(p, false); e != nil {
+				return pbt.Fail("pack %d refused by a queue of 1000 holding %d packs: %v", id, i, e)
+			}
+			frames = append(frames, expectedFrame(p, false))
+			total += len(frames[len(frames)-1])
+		}
+		if c.Shrink > 0 && round == 0 {
+			host, _, _ := net.SplitHostPort(pr.addr)
+			cl.ApplyConfig(mapConf{"license": clientLicense, "whatap.server.host": host, "pcode": "77", "oneway_queue_size": fmt.Sprint(c.Shrink)})
+			cl.Timeout = 5 * time.Second
+		}
+		if e := cl.SendAndClear(); e != nil {
+			return pbt.Fail("SendAndClear on a healthy connection returned %v", e)
+		}
+	}
+	want := bytes.Join(frames, nil)
+	ok := pr.waitFor(func() bool {
+		n := 0
+		for _, pc := range pr.conns {
+			n += len(pc.buf)
+		}
+		return n >= len(want)
+	})
+	pr.mu.Lock()
+	defer pr.mu.Unlock()
+	var got []byte
+	for _, pc := range pr.conns {
+		got = append(got, pc.buf...)
+	}
+	if !ok || !bytes.Equal(got, want) {
+		fr, _, perr := splitFrames(got)
+		var ids []int64
+		byF := map[string]int64{}
+		for i, f := range frames {
+			byF[string(f)] = int64(i + 1)
+		}
+		for _, f := range fr {
+			ids = append(ids, byF[string(f)])
+		}
+		if len(ids) > 40 {
+			ids = ids[:40]
+		}
+		return pbt.Fail("%d packs (%d bytes) were accepted into the queue and drained with SendAndClear on a healthy connection; the collector received %d bytes, %d whole frames, in the order %v (0 = not a frame that was sent; parse error: %v)", len(frames), len(want), len(got), len(fr), ids, perr)
+	}
+	return &pbt.Result{NT: total > 2<<20 || c.Shrink > 0, Classes: []string{fmt.Sprintf("backlog>2MiB=%v", total/c.Rounds > 2<<20), fmt.Sprintf("queue-shrunk-by-reload=%v", c.Shrink > 0)}}
+}
+
+var specDrain = pbt.Register(pbt.Spec[DrainCase]{
+	Prop: "C06", Name: "caller-drains-queue",
+	Rule:  "a client in queue mode without its background goroutine: 2-60 packs (30 B .. 2.5 MB, so that single frames and whole backlogs exceed the 2 MiB write buffer) are accepted into the queue, in a third of the cases a configuration reload then sets the queue size below the backlog, and the caller drains the queue with SendAndClear, 1-2 times on the same connection; the collector must receive exactly the accepted frames, whole, once, in the order they were accepted; non-trivial = backlog above 2 MiB or queue shrunk below its content; distinct by case",
+	Quick: 24, Thorough: 600,
+	Draw: func(t *rapid.T) DrainCase {
+		c := DrainCase{Rounds: rapid.IntRange(1, 2).Draw(t, "rounds")}
+		n := rapid.IntRange(2, 60).Draw(t, "n")
+		big := rapid.IntRange(0, 2).Draw(t, "shape")
+		for i := 0; i < n; i++ {
+			switch big {
+			case 0: // small frames, one oversize frame behind them
+				if i == n-1 || i == n/2 {
+					c.Sizes = append(c.Sizes, 2500000)
+				} else {
+					c.Sizes = append(c.Sizes, rapid.SampledFrom([]int{0, 100, 3000}).Draw(t, "size"))
+				}
+			case 1: // a backlog that exceeds the buffer as a whole
+				c.Sizes = append(c.Sizes, rapid.SampledFrom([]int{70000, 70000, 3000, 0}).Draw(t, "size"))
+			default:
+				c.Sizes = append(c.Sizes, rapid.SampledFrom([]int{0, 100, 3000}).Draw(t, "size"))
+			}
+		}
+		if rapid.IntRange(0, 2).Draw(t, "shrink?") == 0 {
+			c.Shrink = rapid.IntRange(1, n).Draw(t, "shrink")
+		}
+		return c
+	},
+	Run: runDrain,
+})
+
+func TestCallerDrainsQueue(t *testing.T) { specDrain.Check(t) }
